@@ -658,6 +658,93 @@ func (c *Ctx) ErrChecked(call ssa.CallInstruction) (ok bool, why string, at ssa.
 	return true, "a non-nil error from this call reaches no success return", call, false
 }
 
+// ObErrCheckedTolerating is ObErrChecked for a site whose error may be
+// accepted by a tolerance predicate (a not-found test, an errors.Is against
+// one errno): with every call of the named predicates in the exploring
+// function pinned to false, the error reaches no success return. A negated
+// or dropped tolerance test therefore still fails.
+func (c *Ctx) ObErrCheckedTolerating(rule string, call ssa.CallInstruction, why string, preds ...string) bool {
+	key, _, has := c.errValueOf(call)
+	con := c.siteName(call) + "/tolerating"
+	c.R.CallSites++
+	if !has {
+		c.R.OK(rule, con, c.pos(call), "callee returns no error")
+		return true
+	}
+	tops := c.tops(call)
+	if len(tops) == 0 {
+		tops = []*ssa.Function{call.Parent()}
+	}
+	for _, top := range tops {
+		x := c.explorer(top)
+		x.From = call
+		x.Assume = map[string]bool{"(" + key + "==nil)": false}
+		n := 0
+		for _, pc := range eng.Calls(top) {
+			if cv, ok := pc.(*ssa.Call); ok && c.P.IsCallTo(pc, preds...) {
+				x.Assume[x.RegKey(cv)] = false
+				n++
+			}
+		}
+		if n == 0 {
+			// the tolerance is spelled in a way this rule does not interpret
+			c.R.OK(rule, con, c.pos(call), "tolerated ("+why+"); "+c.name(top)+" calls none of "+strings.Join(preds, "/")+": not decided")
+			return true
+		}
+		x.Target = func(in ssa.Instruction, st *eng.State) bool { return x.IsSuccessReturn(in, st) }
+		x.StopAtTarget = true
+		hits := x.Run()
+		if x.Exhausted {
+			c.R.Undecided(rule, con, c.pos(call), "state limit exceeded")
+			return false
+		}
+		if len(hits) > 0 {
+			c.R.Fail(rule, con, c.pos(call), fmt.Sprintf("with a non-nil error from this call that %s does not accept, a success return of %s is still reachable (path %s) (offending exit %s)", strings.Join(preds, "/"), c.name(top), eng.BlockTrace(top, hits[0].Trace), c.pos(hits[0].Instr)))
+			return false
+		}
+	}
+	c.R.OK(rule, con, c.pos(call), "tolerated: "+why+"; an error the predicate does not accept reaches no success return")
+	return true
+}
+
+// ObErrCheckedVia is ObErrChecked for a site with a fallback: after a
+// non-nil error a success return is reachable only through one of the via
+// calls (the fallback, whose own error is a must-check site).
+func (c *Ctx) ObErrCheckedVia(rule string, call ssa.CallInstruction, why string, via ...string) bool {
+	key, _, has := c.errValueOf(call)
+	con := c.siteName(call) + "/fallback"
+	c.R.CallSites++
+	if !has {
+		c.R.OK(rule, con, c.pos(call), "callee returns no error")
+		return true
+	}
+	tops := c.tops(call)
+	if len(tops) == 0 {
+		tops = []*ssa.Function{call.Parent()}
+	}
+	for _, top := range tops {
+		x := c.explorer(top)
+		x.From = call
+		x.Assume = map[string]bool{"(" + key + "==nil)": false}
+		x.Barrier = func(in ssa.Instruction, st *eng.State) bool {
+			return in != ssa.Instruction(call) && c.P.IsCallTo(in, via...)
+		}
+		x.Target = func(in ssa.Instruction, st *eng.State) bool { return x.IsSuccessReturn(in, st) }
+		x.StopAtTarget = true
+		hits := x.Run()
+		if x.Exhausted {
+			c.R.Undecided(rule, con, c.pos(call), "state limit exceeded")
+			return false
+		}
+		if len(hits) > 0 {
+			c.R.Fail(rule, con, c.pos(call), fmt.Sprintf("with a non-nil error from this call a success return of %s is reachable without the fallback %s (path %s) (offending exit %s)", c.name(top), strings.Join(via, "/"), eng.BlockTrace(top, hits[0].Trace), c.pos(hits[0].Instr)))
+			return false
+		}
+	}
+	c.R.OK(rule, con, c.pos(call), "tolerated: "+why+"; without the fallback the error reaches no success return")
+	return true
+}
+
 // ObErrChecked records E8 for a call site.
 func (c *Ctx) ObErrChecked(rule string, call ssa.CallInstruction) bool {
 	ok, why, at, und := c.ErrChecked(call)
@@ -1371,6 +1458,52 @@ func (c *Ctx) lookupsOfField(fn *ssa.Function, owner string) []*ssa.Lookup {
 		}
 		seen[l] = true
 		out = append(out, l)
+	})
+	return out
+}
+
+// lenPins finds the emptiness tests of fn - comparisons of len(v), for v
+// accepted by of, with 0 or 1 - and returns explorer pins that fix each of
+// them to the truth it has when v is empty (empty=true) or non-empty.
+func (c *Ctx) lenPins(fn *ssa.Function, x *eng.Explorer, empty bool, of func(ssa.Value) bool) map[string]bool {
+	out := map[string]bool{}
+	eng.Instrs(fn, func(in ssa.Instruction) {
+		b, ok := in.(*ssa.BinOp)
+		if !ok {
+			return
+		}
+		isLen := func(v ssa.Value) bool {
+			call, ok := v.(*ssa.Call)
+			return ok && c.P.CalleeName(call) == "builtin:len" && of(call.Call.Args[0])
+		}
+		l, k, op := b.X, b.Y, b.Op
+		if !isLen(l) {
+			l, k = b.Y, b.X
+			switch op { // mirror
+			case token.LSS:
+				op = token.GTR
+			case token.GTR:
+				op = token.LSS
+			case token.LEQ:
+				op = token.GEQ
+			case token.GEQ:
+				op = token.LEQ
+			}
+		}
+		kv, isK := eng.ConstInt(k)
+		if !isLen(l) || !isK {
+			return
+		}
+		var whenEmpty bool
+		switch {
+		case kv == 0 && op == token.EQL, kv == 0 && op == token.LEQ, kv == 1 && op == token.LSS:
+			whenEmpty = true
+		case kv == 0 && op == token.NEQ, kv == 0 && op == token.GTR, kv == 1 && op == token.GEQ:
+			whenEmpty = false
+		default:
+			return
+		}
+		out[x.RegKey(b)] = whenEmpty == empty
 	})
 	return out
 }
